@@ -130,7 +130,7 @@ class LaserMachine(Machine):
     pid = "C18"
     title = "Laser profiles integrate to the pulse energy and track their parameters"
     quick_runs = 3000
-    thorough_runs = 100000
+    thorough_runs = 400000
     components_real = ["cherab.core.model.laser profiles and spectra (compiled)", "cherab.core.laser.Laser node, LaserProfile, "
                        "LaserSpectrum", "cherab.core.utility.Notifier", "raysect primitives and scene graph"]
     components_stub = ["object lifetime: gc disabled, explicit gc/drop operations decide when detached profiles die"]
